@@ -131,6 +131,8 @@ func (cm *FairMQ) doConfigure(evt string, src string, dst string, args map[strin
 	state, err = cm.DoTransition(EventInfo{fairmq.EvtBIND, fairmq.INITIALIZED, fairmq.BOUND, nil})
 	if state == fairmq.INITIALIZED { // If we're stuck in the intermediate INITIALIZED state, we roll back to IDLE
 		state, _ = cm.DoTransition(EventInfo{fairmq.EvtRESET_DEVICE, fairmq.INITIALIZED, cm.fmqStateForState(src), nil})
+		finalState = cm.stateForFmqState(state)
+		return
 	} else if state != fairmq.BOUND {
 		finalState = cm.stateForFmqState(state)
 		return
@@ -139,6 +141,8 @@ func (cm *FairMQ) doConfigure(evt string, src string, dst string, args map[strin
 	state, err = cm.DoTransition(EventInfo{fairmq.EvtCONNECT, fairmq.BOUND, fairmq.DEVICE_READY, nil})
 	if state == fairmq.BOUND { // If we're stuck in the intermediate BOUND state, we roll back to IDLE
 		state, _ = cm.DoTransition(EventInfo{fairmq.EvtRESET_DEVICE, fairmq.BOUND, cm.fmqStateForState(src), nil})
+		finalState = cm.stateForFmqState(state)
+		return
 	} else if state != fairmq.DEVICE_READY {
 		finalState = cm.stateForFmqState(state)
 		return
